@@ -5,6 +5,7 @@ truth by construction, not a second lexer); (b) for lexically invalid text, the 
 the exception; (c) M5 recording mapping passed as `names` to eval: every key the evaluator asks the
 host for must be in list_names(text) or in the fixed implicit set.
 """
+import collections.abc
 import random
 
 from lib import gram
@@ -94,7 +95,8 @@ def build_text(types, r, tight, comments):
 def setup(ctx):
     from smartquery import SqParser
     from smartquery import functions
-    ctx.P = SqParser()
+    ctx.P = ctx.P_plain = SqParser()
+    ctx.P_cache = SqParser(parse_cache=gram.ToggleCache())       # a parser whose host cache can refuse a store (see gram.earlier_call)
     ctx.fn_names = sorted(functions.FUNCTIONS)
 
 
@@ -132,6 +134,9 @@ def earlier_calls(ctx, r):
         except Exception:
             pass
         ctx.count('earlier_calls_made')
+    if r.random() < 0.3:
+        gram.earlier_call(P, gram.Cyc(r.getrandbits(16)))          # the shared kit (suspended generators, names=None, failing arithmetic, a cache that refuses, ...)
+        ctx.count('earlier_calls_made')
 
 
 class Recording(dict):
@@ -154,6 +159,28 @@ class Recording(dict):
         return dict.get(self, k, d)
 
 
+class RecordingRO(collections.abc.Mapping):
+    """the same for a host mapping that is a Mapping but neither a dict nor mutable (a lazy, read-only view of host data)"""
+
+    def __init__(self, data):
+        self.data = dict(data)
+        self.asked = []
+
+    def __getitem__(self, k):
+        self.asked.append(k)
+        return self.data[k]
+
+    def __contains__(self, k):
+        self.asked.append(k)
+        return k in self.data
+
+    def __iter__(self):
+        return iter(self.data)
+
+    def __len__(self):
+        return len(self.data)
+
+
 def run_case(case, ctx):
     from smartquery.exceptions import ParserError
     P = ctx.P
@@ -170,6 +197,7 @@ def run_case(case, ctx):
             ctx.violation('list_names differs from the identifiers in the text', case, detail={'text': text, 'expected': truth, 'got': got})
         return
     r = random.Random(case[1])
+    P = ctx.P = ctx.P_cache if case[1] % 3 == 0 else ctx.P_plain
     types = gram.gen('code', r, r.randint(1, 6))[:80]
     if r.random() < 0.3:
         types = gram.mutate(types, r)
@@ -219,7 +247,10 @@ def run_case(case, ctx):
                 ctx.violation('names yielded before the lexical error differ from the identifiers before it', case,
                               detail={'text': t2, 'expected': exp, 'got': out})
     # (c) host lookups during eval
-    rec = Recording({'a': 1, 'b': [1, 2, 3], 'x': 'abc', 'f': lambda *a: a[0] if a else None, 'k2': {'k': 1}, '%user name%': 'u', '%a.b%': 2, 'r': 3})
+    rec = (Recording if case[1] % 4 else RecordingRO)({'a': 1, 'b': [1, 2, 3], 'x': 'abc', 'f': lambda *a: a[0] if a else None, 'k2': {'k': 1}, '%user name%': 'u', '%a.b%': 2, 'r': 3,
+                                                       'never_mentioned': 0, 'zz_unused': [1]})
+    if not isinstance(rec, dict):
+        ctx.count('evals_with_a_read_only_non_dict_names_mapping')
     try:
         P.eval(text, rec, None, 300)
     except Exception:
